@@ -157,6 +157,7 @@ class Bus:
 
     def start(self):
         S = self.S
+        S.per_conn_ids = self.o.get("per_conn_ids", True) and (S.seed // 3) % 2 == 1       # (derived from the case seed, not drawn: the generator's random stream is unchanged)
         if self.o["observer"]:
             self.obs = S.connect("obs", "raw")
             S.request(self.obs, "fetch", {"id": "obs"})
@@ -249,7 +250,11 @@ class Bus:
             fid = rng.choice(active).fid
         else:
             self.fidc = getattr(self, "fidc", 0) + 1
-            fid = rng.choice(["f%d" % self.fidc, self.fidc + 1000])
+            n = self.fidc
+            if S.per_conn_ids:
+                c.fidc += 1         # fetches numbered per connection: the same fetch ids on different connections
+                n = c.fidc
+            fid = rng.choice(["f%d" % n, n + 1000])
         pr = {"id": fid}
         rule = random_rule(rng, self.paths)
         if rule is not None:
